@@ -136,7 +136,7 @@ def type_name(v, st=None):
     return {
         VInt: "int", VBool: "bool", VFloat: "float", VStr: "str", VTuple: "tuple", VList: "list",
         VDict: "dict", VSet: "set", VComplex: "complex", VBytes: "bytes",
-    }.get(type(v), type(v).__name__)
+    }.get(type(v), {"VAStr": "str", "VChr": "str"}.get(type(v).__name__, type(v).__name__))
 
 
 # ---- truthiness ---------------------------------------------------------------
@@ -154,6 +154,10 @@ def truth(st: State, v):
         return z3.Not(z3.fpIsZero(v.t))
     if isinstance(v, VStr):
         return z3.Length(v.t) > 0
+    if type(v).__name__ == "VAStr":
+        return v.n > 0
+    if type(v).__name__ == "VChr":
+        return True
     if isinstance(v, VTuple):
         return len(v.items) > 0
     if isinstance(v, (VList, VDict, VSet)):
@@ -199,6 +203,14 @@ def binop(eng, st, op, a, b, origin=""):
             return [(st, lift(_conc_binop(op, a.py, b.py)))]
         except Exception as e:
             return [(st, exc(type(e).__name__, str(e), origin))]
+    from . import astr
+
+    if op == "+" and (isinstance(a, astr.VAStr) or isinstance(b, astr.VAStr)) and (is_strlike(a) or isinstance(a, astr.VAStr)) and (is_strlike(b) or isinstance(b, astr.VAStr)):
+        if isinstance(a, VStr) or isinstance(b, VStr):
+            raise Unsupported("mixing native and array strings")
+        return [(st, astr.concat(eng, st, astr.as_astr(a), astr.as_astr(b)))]
+    if op == "*" and eng.world.get("__astr__") and isinstance(a, VC) and isinstance(a.py, str) and len(a.py) == 1 and is_intlike(b) and not isinstance(b, VC):
+        return [(st, astr.repeat(eng, st, a.py, to_int_term(b)))]
     # strings
     if is_strlike(a) and is_strlike(b) and op == "+":
         return [(st, VStr(z3.Concat(to_str_term(a), to_str_term(b))))]
@@ -386,6 +398,12 @@ def eq(eng, st, a, b):
     """Python == as python bool or z3 Bool (no raising)."""
     if isinstance(a, VC) and isinstance(b, VC):
         return a.py == b.py
+    from . import astr
+
+    if isinstance(a, (astr.VAStr, astr.VChr)) or isinstance(b, (astr.VAStr, astr.VChr)):
+        r = astr.eq_values(eng, st, a, b)
+        if r is not None:
+            return r
     if is_num(a) and is_num(b):
         if is_floatlike(a) or is_floatlike(b):
             return z3.fpEQ(to_fp(a), to_fp(b))
